@@ -177,7 +177,12 @@ impl LazyScopedVariables {
     }
 
     pub(super) fn evaluate_all(&self, exec: &mut EvaluationContext) -> Result<(), ExecutionError> {
-        for (name, cell) in &self.variables {
+        // force in name order, so that which problem is reported first does not depend on
+        // hash iteration order
+        let mut names = self.variables.keys().collect::<Vec<_>>();
+        names.sort();
+        for name in names {
+            let cell = &self.variables[name];
             let values = cell.replace(ScopedValues::Forcing);
             let map = self.force(name, values, exec)?;
             cell.replace(ScopedValues::Forced(map));
